@@ -168,7 +168,9 @@ class QueueDriver(InstructionGenerator):
             r = rng.random()
             # a stubborn customer (about one vehicle in three, fixed per world) is re-sent its order to go to the station every
             # step while it stands there idle or waits in the queue - what an off-shift human driver in need of a charge does
-            stubborn = random.Random(f"{self.seed}:stubborn:{v.id}").random() < 0.34
+            h_st = random.Random(f"{self.seed}:stubborn:{v.id}").random()
+            # (a depot vehicle that has never moved from the station's own spot is one most of the time)
+            stubborn = h_st < 0.34 or (h_st < 0.85 and v.distance_traveled_km == 0 and v.geoid == st.geoid)
             if stubborn and not shake and (act == "ChargeQueueing" or (act == "Idle" and v.geoid == st.geoid)) and r < 0.9:
                 own = v.vehicle_state
                 usable0 = [c for c in plugs if environment.chargers[c].energy_type in v.energy] or plugs
